@@ -78,6 +78,12 @@ where
             {
                 report("operators-agree", format!("a={:?} b={:?}: cmp={:?} but <,<=,>,>= = {},{},{},{}", a, b, c, a < b, a <= b, a > b, a >= b));
             }
+            // the provided operations of Ord (a type may override them) agree with cmp
+            let (hi, lo) = if c == Ordering::Greater { (a, b) } else { (b, a) };
+            let (mx, mn) = (a.clone().max(b.clone()), a.clone().min(b.clone()));
+            if mx.cmp(hi) != Ordering::Equal || mn.cmp(lo) != Ordering::Equal || std::cmp::max(a, b).cmp(hi) != Ordering::Equal || std::cmp::min(a, b).cmp(lo) != Ordering::Equal {
+                report("max-min-agree-with-cmp", format!("a={:?} b={:?}: cmp={:?} but max={:?} min={:?}", a, b, c, mx, mn));
+            }
             if e && hash_of(a) != hash_of(b) {
                 report("eq-implies-hash-eq", format!("a={:?} b={:?} equal but hash differently", a, b));
             }
